@@ -35,6 +35,7 @@ class Scheduler:
         self.hook = None          # called after every step (state probes)
         self.filter = None        # optional predicate(action) -> bool to veto actions
         self.time_limit = None
+        self.advance_ok = None    # optional predicate gating the random "slow network" advances
 
     # ------------------------------------------------------------------
     def enabled(self, drain=False):
@@ -74,7 +75,7 @@ class Scheduler:
 
     def _pick(self, acts):
         s = self.strategy
-        if s in ("random", "pct") and s == "random":
+        if s == "random":
             return self.rng.choice(acts)
         if s == "pct":
             for a in acts:
@@ -135,7 +136,8 @@ class Scheduler:
             if not can_advance:
                 return False
             a = ("advance", ("advance",), None)
-        elif can_advance and not drain and self.p_advance and self.rng.random() < self.p_advance:
+        elif (can_advance and not drain and self.p_advance and self.rng.random() < self.p_advance
+              and (self.advance_ok is None or self.advance_ok())):
             a = ("advance", ("advance",), None)
         elif drain:
             a = self.rng.choice(acts)
